@@ -2799,7 +2799,17 @@ impl<'de, 'e> de::Deserializer<'de> for YamlDeserializer<'de, 'e> {
                 if let Some(tag_name) = simple_tagged_enum_name(raw_tag, tag) {
                     tagged_enum = Some((tag_name, *location));
                 }
-                if self.cfg.no_schema && *tag != SfTag::String && maybe_not_string(value, style) {
+                // A scalar selected as payload by a variant tag is not a variant name: the
+                // quoting requirement of `no_schema` concerns it only if the payload type
+                // turns out to be a string, which payload deserialization checks itself.
+                let tag_selects_variant = tagged_enum
+                    .as_ref()
+                    .is_some_and(|(tag_name, _)| _variants.contains(&tag_name.as_str()));
+                if self.cfg.no_schema
+                    && !tag_selects_variant
+                    && *tag != SfTag::String
+                    && maybe_not_string(value, style)
+                {
                     let (v, _t, loc) = self.take_scalar_event()?;
                     return Err(Error::quoting_required(&v).with_location(loc));
                 }
